@@ -82,6 +82,11 @@ def gen_cases(tier: str, seed: int):
     r = random.Random(f"{seed}:C12")
     for i in range(len(TARGET_ONLY)):
         yield {"kind": "target_only", "which": i}
+    # a MERGE that fails to compile inside the session's open transaction: the transaction and what it holds stay
+    for bad in range(len(BAD_MERGES)):
+        for end in ("commit", "rollback"):
+            for pending in ("insert", "update", "merge"):
+                yield {"kind": "failed_merge_in_txn", "bad": bad, "end": end, "pending": pending}
     n = 2500 if tier == "quick" else 30000
     for _ in range(n):
         clauses = []
@@ -339,9 +344,98 @@ def _target_only(case: dict, env: core.Env) -> None:
     env.nontrivial(("target_only", name))
 
 
+BAD_MERGES = [
+    ("unknown-column-in-when-condition", "MERGE INTO ACC t USING DELTA s ON t.ID = s.ID WHEN MATCHED AND s.NO_SUCH_COLUMN > 0 THEN UPDATE SET AMT = s.AMT WHEN NOT MATCHED THEN INSERT (ID, AMT) VALUES (s.ID, s.AMT)"),
+    ("unknown-column-in-on", "MERGE INTO ACC t USING DELTA s ON t.ID = s.NO_SUCH_COLUMN WHEN MATCHED THEN UPDATE SET AMT = s.AMT"),
+    ("unknown-source-table", "MERGE INTO ACC t USING NO_SUCH_DELTA s ON t.ID = s.ID WHEN MATCHED THEN DELETE"),
+    ("unknown-target-table", "MERGE INTO NO_SUCH_ACC t USING DELTA s ON t.ID = s.ID WHEN NOT MATCHED THEN INSERT (ID, AMT) VALUES (s.ID, s.AMT)"),
+]
+GOOD_MERGE = "MERGE INTO ACC t USING DELTA s ON t.ID = s.ID WHEN MATCHED THEN UPDATE SET AMT = t.AMT + s.AMT WHEN NOT MATCHED THEN INSERT (ID, AMT) VALUES (s.ID, s.AMT)"
+
+
+def _failed_merge_in_txn(case: dict, env: core.Env) -> None:
+    """BEGIN, a pending change, a MERGE that does not compile, a MERGE that does, COMMIT / ROLLBACK: the failed statement neither
+    ends the transaction nor takes the pending change with it; the later MERGE works on what the session sees, with true counts."""
+    name, bad_sql = BAD_MERGES[case["bad"]]
+    conn, raw = _state["conn"], _state["raw"]
+    try:
+        conn.rollback()
+    except Exception:  # noqa: BLE001
+        pass
+    cur = conn.cursor()
+    own = core.raw_of(conn)
+    cur.execute("CREATE OR REPLACE TABLE ACC (ID INT, AMT INT)")
+    cur.execute("CREATE OR REPLACE TABLE DELTA (ID INT, AMT INT)")
+    cur.execute("INSERT INTO ACC VALUES (1, 10), (2, 20), (3, 30)")
+    cur.execute("INSERT INTO DELTA VALUES (2, 5), (9, 90), (4, 40)")
+    before = [(1, 10), (2, 20), (3, 30)]
+
+    def rd(c: Any) -> list:
+        return sorted(c.execute("select ID, AMT from DB1.S1.ACC").fetchall())
+
+    tag = f"{name}/pending-{case['pending']}"
+    try:
+        cur.execute("BEGIN")
+        if case["pending"] == "insert":
+            cur.execute("INSERT INTO ACC VALUES (9, 1)")
+            pend = sorted(before + [(9, 1)])
+            final, counts = sorted([(1, 10), (2, 25), (3, 30), (9, 91), (4, 40)]), (1, 2)
+        elif case["pending"] == "update":
+            cur.execute("UPDATE ACC SET AMT = AMT + 100 WHERE ID = 2")
+            pend = [(1, 10), (2, 120), (3, 30)]
+            final, counts = sorted([(1, 10), (2, 125), (3, 30), (9, 90), (4, 40)]), (2, 1)
+        else:
+            o0 = core.run_stmt(cur, "MERGE INTO ACC t USING (SELECT 3 AS ID, 7 AS AMT UNION ALL SELECT 4, 1) s ON t.ID = s.ID WHEN MATCHED THEN DELETE WHEN NOT MATCHED THEN INSERT (ID, AMT) VALUES (s.ID, s.AMT)")
+            if not o0["ok"]:
+                env.witness(f"C12/rejected/{o0['exc']['kind']}-{o0['exc']['cls']}/merge-in-transaction", str(o0["exc"])[:600])
+                return
+            pend = [(1, 10), (2, 20), (4, 1)]
+            final, counts = sorted([(1, 10), (2, 25), (4, 41), (9, 90)]), (1, 2)
+        env.count("cmp_failed_merge_in_txn")
+        bad = core.run_stmt(cur, bad_sql)
+        if bad["ok"]:
+            env.witness(f"C12/failed-merge-in-transaction/accepted/{name}", bad_sql)
+            return
+        if rd(own) != pend:
+            env.witness(f"C12/failed-merge-in-transaction/pending-changes-of-the-transaction-lost/{tag}", f"{bad_sql} failed ({bad['exc']['cls']}); the session now sees {rd(own)}, before the MERGE it saw {pend}")
+            return
+        if rd(raw) != before:
+            env.witness(f"C12/failed-merge-in-transaction/transaction-ended/{tag}", f"{bad_sql} failed; other sessions now see {rd(raw)} (committed before: {before})")
+            return
+        good = core.run_stmt(cur, GOOD_MERGE)
+        if not good["ok"]:
+            env.witness(f"C12/failed-merge-in-transaction/next-merge-rejected/{tag}", f"{good['exc']}"[:600])
+            return
+        got_counts = tuple(int(x) for x in good["rows"][0]) if good["rows"] else None
+        if rd(own) != final or got_counts != counts:
+            env.witness(f"C12/failed-merge-in-transaction/next-merge-wrong/{tag}", f"after the failed {name}: {GOOD_MERGE} -> {good['rows']} (expected {counts}), target {rd(own)} expected {final}")
+            return
+        if rd(raw) != before:
+            env.witness(f"C12/failed-merge-in-transaction/visible-before-commit/{tag}", f"other sessions see {rd(raw)} before COMMIT")
+            return
+        cur.execute(case["end"].upper())
+        want = final if case["end"] == "commit" else before
+        if rd(raw) != want or rd(own) != want:
+            env.witness(f"C12/failed-merge-in-transaction/after-{case['end']}/{tag}", f"committed {rd(raw)} session {rd(own)} expected {want}")
+            return
+        env.nontrivial(("failed_merge_in_txn", name, case["end"], case["pending"]))
+    finally:
+        try:
+            conn.rollback()
+        except Exception:  # noqa: BLE001
+            pass
+        for t in ("ACC", "DELTA"):
+            try:
+                cur.execute(f"DROP TABLE IF EXISTS {t}")
+            except Exception:  # noqa: BLE001
+                pass
+
+
 def run_case(case: dict, env: core.Env) -> None:
     if case.get("kind") == "target_only":
         return _target_only(case, env)
+    if case.get("kind") == "failed_merge_in_txn":
+        return _failed_merge_in_txn(case, env)
     conn, raw = _state["conn"], _state["raw"]
     try:
         conn.rollback()
